@@ -326,9 +326,9 @@ class MidiFile:
         if self.type == 2:
             raise TypeError("can't merge tracks in type 2 (asynchronous) file")
 
-        if self._merged_track is None:
-            self._merged_track = merge_tracks(self.tracks, skip_checks=True)
-        return self._merged_track
+        # The result is not cached: tracks and messages are plain mutable
+        # objects that are edited in place, so a cached copy goes stale.
+        return merge_tracks(self.tracks, skip_checks=True)
 
     @merged_track.deleter
     def merged_track(self):
